@@ -320,3 +320,5 @@ _quick("C07", "C07_relock", "a hold locked with E = 2 s (Rcount 2, persisted at 
 _quick("C07", "C07_ms", "a hold with the millisecond flag and E = 30000 ms, persisted at once; restart 0 / 6 / 20 s later: restored with its original deadline to within a second", ["-witness", "3"])
 
 _quick("C03", "C03_textpush", "0..6 text PUSH commands (each granted at once) on one connection, then LOCK and UNLOCK on another key: every PUSH answered once (a PUSH that blocks the connection is a violation), LOCK and UNLOCK answered with their own result and LockId, nothing left over", ["-witness", "3"], reach=["end", "pushed"], blocked="violation")
+
+_quick("C09", "C09_cut", "the real ReplicationClient.InitSync against a scripted leader whose answer to the first SYNC (position H) is followed by the end of the stream, before any record; the follower's SYNC on its next connection (decoded from what it writes) must ask for everything, not for the records after H", ["-witness", "2"])
